@@ -154,6 +154,15 @@ func (c02) Generate(tier string, yield func(*engine.Case) bool) {
 		} {
 			emit(progCase("guards", t, penv, "P"))
 		}
+		// method-syntax calls whose arguments are themselves sugar (operators, unary minus, ternary, subscripts):
+		// an accepted program must not stop on a node the desugarer left behind
+		for _, t := range []*gen.Term{
+			gen.Method("max", num(1), in("+", num(2), num(3))), gen.Method("max", num(1), gen.Neg(5)), gen.Method("max", num(1), gen.Ternary(gen.BoolT(true), num(7), num(0))),
+			gen.Method("max", in("+", num(2), num(3)), num(1)), gen.Method("max", num(1), sub(v("l"), num(0))), gen.Method("isset", v("m"), in("+", str("z"), str("z"))),
+			gen.Method("max", num(1), gen.Method("max", num(2), in("*", num(2), num(3)))), gen.Method("len", sub(gen.ListT(v("l")), num(0))),
+		} {
+			emit(progCase("method-sugar", t, penv, "P"))
+		}
 		// the same through lazy FUNCTION VALUES called dynamically (user conditionals)
 		funs := real.StdHost().EnvFuns()
 		denv := partialEnv()
